@@ -103,8 +103,68 @@ pub struct Profile {
     pub noop_pct: u64,
     pub task_wraps: &'static [Wrap],
     pub reentrant_pct: u64,
+    /// the reporter itself records spans while it reports
+    pub reporter_traces_pct: u64,
     pub no_reporter_pct: u64,
     pub teardown_early_pct: u64,
+    /// swarm: operation kinds added on top of the property's own table for this run
+    pub extra: &'static [(K, u64)],
+}
+
+/// Swarm testing: a share of the runs of every property gets, on top of the property's own
+/// profile, a random subset of the cross-cutting fault kinds and operations of the other profiles
+/// (so that no property's check silently depends on one workload shape).
+pub const SWARM_PCT: u64 = 15;
+const X_UNWIND: &[(K, u64)] = &[(K::UnwindScope, 4), (K::UserPanic, 3), (K::Collect, 2)];
+const X_EVENTS: &[(K, u64)] = &[(K::EventNew, 3), (K::AddEventFrom, 4), (K::LocalAddEvent, 3), (K::AddEvent, 3), (K::LocalAddProps, 3), (K::AddProps, 3)];
+const X_THREADS: &[(K, u64)] = &[(K::Exit, 4), (K::Join, 4), (K::Flush, 4), (K::Cycle, 3), (K::Sleep, 2)];
+const X_SCOPES: &[(K, u64)] = &[(K::StartCollector, 4), (K::Push, 3), (K::Collect, 2), (K::SetLocalParent, 4), (K::ChildLocal, 4), (K::Pop, 8)];
+const X_CTX: &[(K, u64)] = &[(K::CtxCurrent, 4), (K::CtxSpan, 4), (K::RootFromCtx, 3), (K::Noop, 2), (K::EmptyParents, 1), (K::Elapsed, 2)];
+const X_MIX: &[(K, u64)] = &[(K::UnwindScope, 2), (K::UserPanic, 2), (K::EventNew, 2), (K::AddEventFrom, 2), (K::Exit, 2), (K::Join, 2), (K::Flush, 2), (K::StartCollector, 2), (K::Push, 2), (K::CtxCurrent, 2)];
+const X_SETS: &[&[(K, u64)]] = &[&[], X_UNWIND, X_EVENTS, X_THREADS, X_SCOPES, X_CTX, X_MIX, X_MIX];
+const SMALL_RINGS: &[(u32, u64)] = &[(0, 2), (2, 2), (3, 1), (4, 2), (8, 1)];
+
+pub fn is_swarm(seed: u64) -> bool {
+    Rng::new(mix(seed ^ 0x5a3a_1157)).pct(SWARM_PCT)
+}
+
+pub fn swarm(p: &mut Profile, seed: u64) -> bool {
+    let mut r = Rng::new(mix(seed ^ 0x5a3a_1157));
+    if !r.pct(SWARM_PCT) {
+        return false;
+    }
+    if r.pct(35) {
+        p.stall_pct = p.stall_pct.max(60);
+    }
+    if r.pct(25) {
+        p.wallstep_pct = p.wallstep_pct.max(60);
+    }
+    // (calls from thread-local destructors stay with C07: the spans they record are not part of
+    // the modelled program)
+    let _ = r.pct(25);
+    if r.pct(20) {
+        p.late_reporter_pct = p.late_reporter_pct.max(50);
+    }
+    if r.pct(30) {
+        p.reentrant_pct = p.reentrant_pct.max(20);
+        p.props_pct = p.props_pct.max(30);
+    }
+    if r.pct(30) {
+        p.exit_after_finish_pct = p.exit_after_finish_pct.max(60);
+    }
+    // (the C15 oracle compares delivered trees of twin calls and has no notion of the permitted
+    // omissions of a full queue, so its queue stays at the default capacity)
+    if r.pct(30) && p.prop != "C15" {
+        p.ring_caps = SMALL_RINGS;
+    }
+    if r.pct(20) {
+        p.unsampled_pct = p.unsampled_pct.max(20);
+    }
+    if r.pct(20) {
+        p.utf8_pct = p.utf8_pct.max(50);
+    }
+    p.extra = X_SETS[r.below(X_SETS.len() as u64) as usize];
+    true
 }
 
 pub const EPS_NS: u64 = 30_000;
@@ -152,7 +212,9 @@ pub fn base_profile(prop: &'static str) -> Profile {
         noop_pct: 0,
         task_wraps: &[Wrap::InSpan, Wrap::EnterOnPoll, Wrap::InSpanEnterOnPoll],
         reentrant_pct: 0,
+        reporter_traces_pct: 0,
         no_reporter_pct: 0,
+        extra: &[],
         teardown_early_pct: 0,
     }
 }
@@ -556,6 +618,7 @@ pub fn profile(prop: &str) -> Profile {
         "C10" => Profile {
             prop: "C10",
             reentrant_pct: 25,
+            reporter_traces_pct: 6,
             props_pct: 35,
             callers: (0, 2),
             ops: (20, 90),
@@ -571,6 +634,7 @@ pub fn profile(prop: &str) -> Profile {
         "C11" => Profile {
             prop: "C11",
             reentrant_pct: 25,
+            reporter_traces_pct: 6,
             props_pct: 35,
             callers: (0, 2),
             cancelable_pct: 20,
@@ -590,6 +654,7 @@ pub fn profile(prop: &str) -> Profile {
             ring_caps: &[(0, 4), (2, 1), (3, 1), (8, 1)],
             props_pct: 60,
             reentrant_pct: 50,
+            reporter_traces_pct: 12,
             no_reporter_pct: 15,
             late_reporter_pct: 25,
             teardown_early_pct: 25,
@@ -1386,7 +1451,7 @@ pub fn gen_sched(rng: &mut Rng, p: &Profile, seed: u64, interval: u64) -> SchedC
         max_steps: 40_000,
         stall,
         wall_steps,
-        reporter_traces: rng.pct(p.reentrant_pct / 4),
+        reporter_traces: rng.pct(p.reporter_traces_pct),
         report_stall: if rng.pct(p.stall_pct / 2) {
             Some((rng.below(5) as u32, 5_000 + rng.below(4) * interval.max(10_000)))
         } else {
@@ -1396,7 +1461,8 @@ pub fn gen_sched(rng: &mut Rng, p: &Profile, seed: u64, interval: u64) -> SchedC
 }
 
 pub fn generate(prop: &str, seed: u64) -> Case {
-    let p = profile(prop);
+    let mut p = profile(prop);
+    swarm(&mut p, seed);
     generate_with(&p, seed)
 }
 
@@ -1408,6 +1474,7 @@ pub fn generate_tier(prop: &str, seed: u64, thorough: bool) -> Case {
         p.callers.1 = (p.callers.1 + 1).min(4);
         p.max_depth += 2;
     }
+    swarm(&mut p, seed);
     generate_with(&p, seed)
 }
 
@@ -1488,7 +1555,7 @@ pub fn generate_with(p: &Profile, seed: u64) -> Case {
             g.push(t, Op::Finish { slot });
         }
     }
-    let total_w: u64 = p.weights.iter().map(|(_, w)| *w).sum();
+    let total_w: u64 = p.weights.iter().chain(p.extra.iter()).map(|(_, w)| *w).sum();
     let mut guard = 0;
     while (g.ops.len() as u64) < nops && guard < nops * 20 {
         guard += 1;
@@ -1501,7 +1568,7 @@ pub fn generate_with(p: &Profile, seed: u64) -> Case {
         let t = *g.rng.pick(&act);
         let mut r = g.rng.below(total_w);
         let mut k = p.weights[0].0;
-        for (kk, w) in p.weights {
+        for (kk, w) in p.weights.iter().chain(p.extra.iter()) {
             if r < *w {
                 k = *kk;
                 break;
